@@ -17,8 +17,9 @@ Model: `Clover/Model/Msgpack.lean` (`encWire`/`decWire`, `encDocBytes`/`decDocBy
     written does not matter;
   * (5) `types_preserved`: int64 / uint64 / float64 come back with the same Go type;
   * `decWire_fuel_length`: the fuel of `decDocBytes` (length of the input) is always enough;
-  * `TimeOK` documents two defects of Go's `time.MarshalBinary`/`UnmarshalBinary` pair (no encoding
-    for offsets of -1 minute; negative offsets with a seconds component do not round-trip). -/
+  * `TimeOK`: with the repaired `(*LocalizedTime).MarshalMsgpack` every zone offset from -1966080 s
+    to 1966079 s round-trips except -60 s (refused by `time.MarshalBinary`); the examples at the end
+    record why the standard layout (`gobTimeStd`) is not used for negative offsets with seconds. -/
 namespace CV.Msgpack
 open CV OC
 
@@ -212,75 +213,129 @@ theorem decKey_encStr (s : Bytes) (h : s.length < 4294967296) (r : Bytes) :
 
 /-! ## times -/
 
-/-- what `MarshalBinary` / `UnmarshalBinary` round-trip: UnixNano in int64; zone offset either
-    non-negative (below 32768 minutes) or a negative whole number of minutes other than -1 minute,
-    not below -32768 minutes.  (Offsets -119..-60 s make `MarshalBinary` fail; a negative offset
-    with a seconds component is written as int8 seconds and read back as an unsigned byte.) -/
+/-- what `(*LocalizedTime).MarshalMsgpack` (/repo/internal/time.go:26-41) and
+    `time.UnmarshalBinary` round-trip: UnixNano in int64; zone offset from -32768 minutes up to (not
+    including) +32768 minutes, EXCEPT -60 s.  This is exact for the offsets: -60 s is refused by
+    `MarshalBinary` (minutes -1 is the UTC marker; `Encode` fails), and beyond the range the minutes
+    do not fit int16 (the standard branch fails, the negative-seconds branch silently wraps:
+    -1966081 s would come back as +1966079 s).  Evaluating the model over -200..200 shows -60 as
+    the only offset that does not come back. -/
 def TimeOK (ns off : Int) : Prop :=
   -9223372036854775808 ≤ ns ∧ ns < 9223372036854775808 ∧
-  ((0 ≤ off ∧ off < 1966080) ∨ (-1966080 ≤ off ∧ off < 0 ∧ off % 60 = 0 ∧ off ≠ -60))
-
-theorem gobTime_v1 (ns off : Int) (h : goMod off 60 = 0) :
-    gobTime ns off = 1 :: (be (ofInt64 (ns / 1000000000 + unixToInternal)) 8 ++
-      (be (ns % 1000000000).toNat 4 ++ be ((if off = 0 then -1 else goDiv off 60) % 65536).toNat 2)) := by
-  simp only [gobTime, h, if_true]
-
-theorem gobTime_v2 (ns off : Int) (h : goMod off 60 ≠ 0) :
-    gobTime ns off = 2 :: (be (ofInt64 (ns / 1000000000 + unixToInternal)) 8 ++
-      (be (ns % 1000000000).toNat 4 ++ (be ((if off = 0 then -1 else goDiv off 60) % 65536).toNat 2 ++
-        be (goMod off 60 % 256).toNat 1))) := by
-  simp only [gobTime, h, if_false]
-
-theorem gobTime_length (ns off : Int) :
-    (gobTime ns off).length = if goMod off 60 = 0 then 15 else 16 := by
-  by_cases h : goMod off 60 = 0
-  · rw [gobTime_v1 ns off h, if_pos h]
-    simp only [List.length_cons, List.length_append, length_be]
-  · rw [gobTime_v2 ns off h, if_neg h]
-    simp only [List.length_cons, List.length_append, length_be]
+  -1966080 ≤ off ∧ off < 1966080 ∧ off ≠ -60
 
 theorem be_one (n : Nat) : be n 1 = [UInt8.ofNat n] := by
   simp only [be, Nat.pow_zero, Nat.div_one]
 
+/-- `UnmarshalBinary` on a well-sized version-1 payload -/
+theorem gobDecode_v1 (sec nsec om : Nat) (h1 : sec < 256^8) (h2 : nsec < 256^4) (h3 : om < 256^2) :
+    gobDecode (1 :: (be sec 8 ++ (be nsec 4 ++ be om 2))) = mkTime sec nsec om 0 := by
+  rw [gobDecode, if_pos (Or.inl rfl), readBE_be 8 _ h1]
+  dsimp only
+  rw [readBE_be 4 _ h2]
+  dsimp only
+  rw [readBE_be_nil 2 _ h3]
+  dsimp only
+  rw [if_pos rfl, if_pos rfl]
+
+/-- `UnmarshalBinary` on a well-sized version-2 payload: the seconds byte is read unsigned -/
+theorem gobDecode_v2 (sec nsec om sb : Nat) (h1 : sec < 256^8) (h2 : nsec < 256^4) (h3 : om < 256^2)
+    (h4 : sb < 256) :
+    gobDecode (2 :: (be sec 8 ++ (be nsec 4 ++ (be om 2 ++ be sb 1)))) = mkTime sec nsec om sb := by
+  rw [gobDecode, if_pos (Or.inr rfl), readBE_be 8 _ h1]
+  dsimp only
+  rw [readBE_be 4 _ h2]
+  dsimp only
+  rw [readBE_be 2 _ h3]
+  dsimp only
+  rw [if_neg (by decide), be_one]
+  dsimp only
+  rw [toNat_ofNat_lt _ h4]
+
+theorem gobTimeStd_v1 (ns off : Int) (h : goMod off 60 = 0) :
+    gobTimeStd ns off = 1 :: (be (ofInt64 (ns / 1000000000 + unixToInternal)) 8 ++
+      (be (ns % 1000000000).toNat 4 ++ be ((if off = 0 then -1 else goDiv off 60) % 65536).toNat 2)) := by
+  simp only [gobTimeStd, h, if_true]
+
+theorem gobTimeStd_v2 (ns off : Int) (h : goMod off 60 ≠ 0) :
+    gobTimeStd ns off = 2 :: (be (ofInt64 (ns / 1000000000 + unixToInternal)) 8 ++
+      (be (ns % 1000000000).toNat 4 ++ (be ((if off = 0 then -1 else goDiv off 60) % 65536).toNat 2 ++
+        be (goMod off 60 % 256).toNat 1))) := by
+  simp only [gobTimeStd, h, if_false]
+
+/-- the branch of `MarshalMsgpack` that defers to `MarshalBinary` -/
+theorem gobTime_std (ns off : Int) (h : 0 ≤ off ∨ goMod off 60 = 0) : gobTime ns off = gobTimeStd ns off := by
+  rw [gobTime, if_pos h]
+
+theorem gobTime_neg' (ns off : Int) (h : ¬ (0 ≤ off ∨ goMod off 60 = 0)) :
+    gobTime ns off = 2 :: (be (ofInt64 (ns / 1000000000 + unixToInternal)) 8 ++
+      (be (ns % 1000000000).toNat 4 ++ (be ((goDiv off 60 - 1) % 65536).toNat 2 ++
+        be ((off - (goDiv off 60 - 1) * 60) % 256).toNat 1))) := by
+  rw [gobTime, if_neg h]
+
+/-- the repaired branch: negative offset with a seconds component.  Go's `offset/60 - 1` is the
+    FLOOR of offset/60 there and `offset - min*60` the non-negative remainder. -/
+theorem gobTime_neg (ns off : Int) (h : ¬ (0 ≤ off ∨ goMod off 60 = 0)) :
+    gobTime ns off = 2 :: (be (ofInt64 (ns / 1000000000 + unixToInternal)) 8 ++
+      (be (ns % 1000000000).toNat 4 ++ (be ((off / 60) % 65536).toNat 2 ++
+        be ((off % 60) % 256).toNat 1))) := by
+  have h0 : off < 0 := by omega
+  have hr : goMod off 60 ≠ 0 := fun e => h (Or.inr e)
+  have hq : goDiv off 60 - 1 = off / 60 := by unfold goMod at hr; unfold goDiv; omega
+  have hs : off - (goDiv off 60 - 1) * 60 = off % 60 := by rw [hq]; omega
+  rw [gobTime_neg' ns off h, hs, hq]
+
+theorem gobTime_length (ns off : Int) :
+    (gobTime ns off).length = if goMod off 60 = 0 then 15 else 16 := by
+  by_cases h : goMod off 60 = 0
+  · rw [gobTime_std ns off (Or.inr h), gobTimeStd_v1 ns off h, if_pos h]
+    simp only [List.length_cons, List.length_append, length_be]
+  · rw [if_neg h]
+    by_cases h0 : 0 ≤ off
+    · rw [gobTime_std ns off (Or.inl h0), gobTimeStd_v2 ns off h]
+      simp only [List.length_cons, List.length_append, length_be]
+    · rw [gobTime_neg ns off (fun hh => hh.elim h0 h)]
+      simp only [List.length_cons, List.length_append, length_be]
+
+/-- the time codec round-trips on `TimeOK` -/
 theorem gobDecode_gobTime (ns off : Int) (h : TimeOK ns off) :
     gobDecode (gobTime ns off) = some (ns, off) := by
-  obtain ⟨h1, h2, h3⟩ := h
+  obtain ⟨h1, h2, h3, h4, h5⟩ := h
   have hsec : ofInt64 (ns / 1000000000 + unixToInternal) < 256^8 := by
     rw [pow256_8]; unfold ofInt64; omega
   have hnsec : (ns % 1000000000).toNat < 256^4 := by rw [pow256_4]; omega
-  have hom : ((if off = 0 then -1 else goDiv off 60) % 65536).toNat < 256^2 := by rw [pow256_2]; omega
   by_cases hr : goMod off 60 = 0
-  · rw [gobTime_v1 ns off hr, gobDecode, if_pos (Or.inl rfl), readBE_be 8 _ hsec]
-    dsimp only
-    rw [readBE_be 4 _ hnsec]
-    dsimp only
-    rw [readBE_be_nil 2 _ hom]
-    dsimp only
-    rw [if_pos rfl, if_pos rfl, mkTime]
+  · have hom : ((if off = 0 then -1 else goDiv off 60) % 65536).toNat < 256^2 := by
+      rw [pow256_2]; omega
+    rw [gobTime_std ns off (Or.inr hr), gobTimeStd_v1 ns off hr, gobDecode_v1 _ _ _ hsec hnsec hom,
+      mkTime]
     unfold goMod at hr
     unfold toInt64 toInt16 ofInt64 unixToInternal goDiv
     rw [if_neg (by omega), if_neg (by omega)]
     congr 2
     · omega
     · omega
-  · rw [gobTime_v2 ns off hr, gobDecode, if_pos (Or.inr rfl), readBE_be 8 _ hsec]
-    dsimp only
-    rw [readBE_be 4 _ hnsec]
-    dsimp only
-    rw [readBE_be 2 _ hom]
-    dsimp only
-    rw [if_neg (by decide), be_one]
-    dsimp only
-    rw [mkTime]
-    unfold goMod at hr
-    have hb : (UInt8.ofNat (goMod off 60 % 256).toNat).toNat = (goMod off 60 % 256).toNat :=
-      toNat_ofNat_lt _ (by omega)
-    rw [hb]
-    unfold toInt64 toInt16 ofInt64 unixToInternal goDiv goMod
-    rw [if_neg (by omega), if_neg (by omega)]
-    congr 2
-    · omega
-    · omega
+  · by_cases h0 : 0 ≤ off
+    · have hom : ((if off = 0 then -1 else goDiv off 60) % 65536).toNat < 256^2 := by
+        rw [pow256_2]; omega
+      have hsb : (goMod off 60 % 256).toNat < 256 := by omega
+      rw [gobTime_std ns off (Or.inl h0), gobTimeStd_v2 ns off hr,
+        gobDecode_v2 _ _ _ _ hsec hnsec hom hsb, mkTime]
+      unfold goMod at hr
+      unfold toInt64 toInt16 ofInt64 unixToInternal goDiv goMod
+      rw [if_neg (by omega), if_neg (by omega)]
+      congr 2
+      · omega
+      · omega
+    · have hom : ((off / 60) % 65536).toNat < 256^2 := by rw [pow256_2]; omega
+      have hsb : ((off % 60) % 256).toNat < 256 := by omega
+      rw [gobTime_neg ns off (fun hh => hh.elim h0 hr), gobDecode_v2 _ _ _ _ hsec hnsec hom hsb, mkTime]
+      unfold goMod at hr
+      unfold toInt64 toInt16 ofInt64 unixToInternal
+      rw [if_neg (by omega), if_neg (by omega)]
+      congr 2
+      · omega
+      · omega
 
 theorem dec1_ltime (dec : Bytes → Option (Wire × Bytes)) (ns off : Int) (h : TimeOK ns off) (r : Bytes) :
     decWire1 dec (encExtLen (gobTime ns off).length ++ (localizedTimeExt :: gobTime ns off) ++ r)
@@ -1291,14 +1346,27 @@ example : decDocBytesStrict [0x81, 0xa1, 0x61, 0xc3, 0xff] = none := by rfl
 /-- duplicate key: the last entry wins; entries come back sorted -/
 example : decDocBytes [0x83, 0xa1, 0x62, 0xc0, 0xa1, 0x61, 0xc3, 0xa1, 0x61, 0xc2]
     = some [([0x61], .bool false), ([0x62], .null)] := by rfl
-/-- THE LIBRARY DOES NOT ROUND-TRIP a negative zone offset with a seconds component:
-    -3630 s is written as minutes -60, seconds int8(-30) = 0xe2, and read back as -3600 + 226
-    (Go 1.23.5 agrees: `ff c4 e2` comes back as offset -3374) -/
-example : gobDecode (gobTime 1500000000123456789 (-3630)) = some (1500000000123456789, -3374) := by
+/-- the repaired `MarshalMsgpack`: a negative offset with a seconds component comes back as written
+    (minutes rounded down, seconds 1..59: -3630 s = -61 min + 30 s = `ff c3 1e`; -90 s = -2 min +
+    30 s = `ff fe 1e`; bytes checked against Go) -/
+example : gobTime 1500000000123456789 (-3630)
+    = [2, 0, 0, 0, 0x0e, 0xd0, 0xfa, 0x26, 0x00, 0x07, 0x5b, 0xcd, 0x15, 0xff, 0xc3, 0x1e] := by decide
+example : gobDecode (gobTime 1500000000123456789 (-3630)) = some (1500000000123456789, -3630) := by
   decide
-/-- and `MarshalBinary` has no encoding at all for offsets of -1 minute (the UTC marker): the model
-    writes `ff ff`, which reads back as UTC -/
+example : gobDecode (gobTime 1500000000123456789 (-90)) = some (1500000000123456789, -90) := by
+  decide
+/-- why clover does NOT use `time.MarshalBinary` there: in the STANDARD layout -3630 s is written as
+    minutes -60, seconds int8(-30) = 0xe2, and `UnmarshalBinary` reads it back as -3600 + 226
+    (Go 1.23.5 agrees: `ff c4 e2` comes back as offset -3374) -/
+example : gobDecode (gobTimeStd 1500000000123456789 (-3630)) = some (1500000000123456789, -3374) := by
+  decide
+/-- `MarshalBinary` has no encoding at all for an offset of -1 minute (the UTC marker), so `Encode`
+    FAILS in Go for -60 s; the model's bytes (`ff ff`) are meaningless there and read back as UTC:
+    the one offset excluded by `TimeOK` -/
 example : gobDecode (gobTime 0 (-60)) = some (0, 0) := by decide
+/-- the other offsets are unchanged by the repair -/
+example : gobTime 7 3630 = gobTimeStd 7 3630 ∧ gobTime 7 (-3600) = gobTimeStd 7 (-3600) ∧
+    gobTime 7 0 = gobTimeStd 7 0 := by decide
 /-- Go's truncating division agrees with `Int.tdiv` / `Int.tmod` -/
 example : goDiv (-3630) 60 = Int.tdiv (-3630) 60 ∧ goMod (-3630) 60 = Int.tmod (-3630) 60 := by decide
 
